@@ -107,6 +107,14 @@ Theorem c04_to_angle_guard_is_engine_threshold : forall c, guard_cfg_ok c = true
 Proof. exact guard_ok_horiz. Qed.
 Theorem c04_to_angle_guard_tied : forall s, ta_guard s <-> guard_den ta_guard_cfg s.
 Proof. exact ta_guard_tied. Qed.
+(** The pitch: a reified component accepted by [pitch_ok] is atan2(-forward.z, horizontal length) - total on every matrix,
+    also on a product whose forward.z was rounded to 1.0000000000000002 - and the reified components are the generated ones. *)
+Theorem c04_to_angle_pitch_is_atan2 : forall c, pitch_ok c = true -> forall s t, comp_den s c t ->
+  exists n, t = TaAtan2 n (- ac s) (horiz s).
+Proof. exact pitch_ok_meaning. Qed.
+Theorem c04_to_angle_pitch_tied : forall s,
+  comp_den s ta_pitch_main_cfg (fst (fst (ta_main s))) /\ comp_den s ta_pitch_lock_cfg (fst (fst (ta_lock s))).
+Proof. exact ta_pitch_tied. Qed.
 (** Inside the gimbal-lock band every entry is reproduced within twice the horizontal length of the forward axis. *)
 Theorem c04_gimbal_error_bound : forall atan2, atan2_spec atan2 ->
   forall m, rotation m -> horiz m <= 1 / 1000 -> mat_close (2 * horiz m) (from_angle_obj (to_angle atan2 m)) m.
